@@ -217,6 +217,9 @@ func init() {
 	streams["dbgneutral"] = &stream{gen: genDbgNeutral, run: runPair}
 	streams["regroup"] = &stream{gen: func(r *rng) string {
 		c := genChain(r, chainOpts{})
+		if r.chance(1, 3) {
+			addEdits(r, c) // named edits must survive every re-spelling of the list
+		}
 		c.regroup = 1 + r.intn(1000000)
 		return c.encode()
 	}, run: runChain}
